@@ -98,7 +98,9 @@ func genC15(seed uint64, run int, tier string) Scenario {
 		case "cmd":
 			it.Cmd = byte(between(r, 241, 249)) // NOP .. GA
 		case "data":
-			it.Text = pick(r, "login: ", "\r\nWelcome\r\n", "User Access Verification\r\n\r\nUsername: ", "é日本", word(r, lower+" ", 1, 20))
+			it.Text = pick(r, "login: ", "\r\nWelcome\r\n", "User Access Verification\r\n\r\nUsername: ", "é日本", word(r, lower+" ", 1, 20),
+				// (NVT line ends and bare control bytes are data like any other)
+				"motd\r\x00\nnext\r\x00", "\r", "\x00", "a\x00b\x07c\x08\x1b[0m")
 			if r.IntN(40) == 0 {
 				// a long banner in the middle of the opening (around and beyond common buffer sizes)
 				it.Text = strings.Repeat(word(r, lower+" ", 20, 60)+"\r\n", 1+pick(r, 4090, 8190, 8200, 16400)/40)
